@@ -67,7 +67,7 @@ def run_scope(progs, report, wd, what="scope", protocol=False):
         report.cov["traces_validated_against_impl"] += 1
         for kind, name in sorted(fs):
             clause = ("Err: unbound name " + name) if kind == "unbound" else ("Protocol: " + name) if kind == "protocol" else ("LoopVarsScoped: " + name + " read outside its loop")
-            if kind == "protocol" and not protocol:
+            if (kind == "protocol") != bool(protocol):          # a protocol run judges the protocol only, a scope run the names only
                 continue
             report.violation(dict(kind="scope", clause=clause, spec=p["yaml"], text=p["text"], family=p["family"], mode=p.get("mode"),
                                   site=execpipe.site_of("Err: unbound name " + name, p["text"])))
